@@ -1252,6 +1252,7 @@ class SeparateComplex(Contract):
 
     def at_call(self, E, pp, composite, level):
         # used by _format on an abstract dict: the element-wise loop contract does not depend on item order
+        E.ctx.notes.append(("separate-complex-call", composite, level))
         return None
 
 
@@ -1346,6 +1347,10 @@ class FormatLoop(LoopSpec):
             yield "alignment-column-of-this-object", S.and_(tied, pp.align_values)
         else:
             yield "no-alignment-column-without-align_values", S.and_(S.not_(pp.align_values), S.eq(am, 0) if am is not None else False)
+        # C06: the items are visited AFTER separate_complex had its say on this object (it is the only place where
+        # separate_complex_types takes effect; its own contract says what it may move)
+        sc = [n for n in E.ctx.notes if isinstance(n, tuple) and n and n[0] == "separate-complex-call"]
+        yield "separate_complex-applied-to-this-object-before-its-items", len(sc) == 1 and sc[0][1] is L["composite"] and sc[0][2] is L["level"]
 
     def exit_state(self, E, L, coll):
         return {"lines": list(L["lines"]) + [Seg("_format.body", coll.info["owner"], L["level"])]}
@@ -1426,9 +1431,10 @@ class FormatLoop(LoopSpec):
 @register
 class Format(Contract):
     target = "mappyfile.pprint.PrettyPrinter._format"
-    cases = ["nocomments", "abscomments"]
+    cases = ["nocomments", "abscomments", "notype"]
     props = ("C16", "C03", "C14", "C13")
     loops = {1: FormatLoop(), 2: ChildrenLoop()}
+    loop_cases = {1: ["nocomments", "abscomments"], 2: ["nocomments", "abscomments"]}
     nested = {2: (1, "childlist")}
     modifies = ()     # separate_complex (the only writer) is used through its own contract
     doc = ("comments + [ws(level)+TYPE] + body + [ws(level)+END(+ # TYPE)], body = concatenation over the items, in "
@@ -1440,6 +1446,12 @@ class Format(Contract):
         E.assume(S.in_const_set(typ, t["names"]))
         entries = [("__type__", typ)]
         absent = ()
+        if case == "notype":
+            # a dictionary that is not a Mapfile object (no __type__): refused, nothing is returned as text (C03)
+            d = E.absdict("composite", entries=[], ci=True, absent=("__type__", "__comments__"))
+            level = E.int("level")
+            E.assume(level >= 0)
+            return (mk_pp(E), d, level), {}
         if case == "abscomments":
             entries.append(("__comments__", AbsComments()))
         else:
@@ -1451,6 +1463,9 @@ class Format(Contract):
 
     def ensures(self, E, case, args, kwargs, out):
         pp, d, level = args
+        if case == "notype":
+            yield "refused-with-an-error", out.kind == "raise" and issubclass(out.exc, (UnboundLocalError, NameError))
+            return
         typ = d["__type__"]
         ok = out.kind == "return" and isinstance(out.value, list)
         yield "returns-list", ok
